@@ -588,6 +588,56 @@ def polysm_functions(repo, outdir):
     write(os.path.join(outdir, "PolygonSMGen.lean"), "\n".join(out))
     return len(jobs)
 
+# ---------------------------------------------------------------------------------------------
+# geo-types/src/private_utils.rs: the point–segment distance, with `hypot` as a parameter (sqrt-free tie, C07)
+
+PU = "geo-types/src/private_utils.rs"
+LNRS = "geo-types/src/geometry/line.rs"
+
+def dist_jobs():
+    R = {"ret_type": "Rat"}
+    return [
+        # (file, header, Lean name, params, ret, funcs, subst, opts)
+        (LNRS, r"pub fn delta\(&self\) -> Coord<T> \{", "lineDelta", "(s e : Pt)", "Pt", {}, [("self.start", "s"), ("self.end", "e")], {"ret_type": "Pt"}),
+        (LNRS, r"pub fn dx\(&self\) -> T \{", "lineDx", "(s e : Pt)", "Rat", {}, [("self", "s e")], dict(R, accessors={"delta": "(lineDelta {})"})),
+        (LNRS, r"pub fn dy\(&self\) -> T \{", "lineDy", "(s e : Pt)", "Rat", {}, [("self", "s e")], dict(R, accessors={"delta": "(lineDelta {})"})),
+        # `f64::hypot` is the parameter `hyp` (no square root over the rationals; the tie theorem assumes only that its
+        # square is x² + y² at the argument pairs the code evaluates)
+        (PU, r"pub fn line_euclidean_length<T>\(line: Line<T>\) -> T\s+where\s+T: CoordFloat,\s*\{", "lineEuclideanLength",
+         "(hyp : Rat → Rat → Rat) (line : Pt × Pt)", "Rat", {".hypot": "(hyp {0} {1})"}, [],
+         dict(R, accessors={"dx": "(lineDx {0}.1 {0}.2)", "dy": "(lineDy {0}.1 {0}.2)"})),
+        (PU, r"pub fn line_segment_distance<T, C>\(point: C, start: C, end: C\) -> T\s+where\s+T: CoordFloat,\s+C: Into<Coord<T>>,\s*\{",
+         "lineSegmentDistance", "(hyp : Rat → Rat → Rat) (point start end_ : Pt)", "Rat",
+         {".hypot": "(hyp {0} {1})", "line_euclidean_length": "(lineEuclideanLength hyp {0})", "Line::new": "({0}, {1})"}, [],
+         # `.into()` of a Coord into a Coord: the identity; `abs` = rabs
+         dict(R, accessors={"into": "{}", "abs": "(Geo.rabs {})"})),
+        (PU, r"pub fn point_line_euclidean_distance<C, T>\(p: C, l: Line<T>\) -> T\s+where\s+T: CoordFloat,\s+C: Into<Coord<T>>,\s*\{",
+         "pointLineEuclideanDistance", "(hyp : Rat → Rat → Rat) (p : Pt) (l : Pt × Pt)", "Rat",
+         {"line_segment_distance": "(lineSegmentDistance hyp {0} {1} {2})"}, [("l.start", "l.1"), ("l.end", "l.2")],
+         dict(R, accessors={"into": "{}"})),
+    ]
+
+def dist_functions(repo, outdir):
+    """Gen/DistGen.lean: `line_segment_distance`, `point_line_euclidean_distance`, `line_euclidean_length`, `Line::{delta,dx,dy}`."""
+    import rsexpr
+    out = ["/- generated by translator/rs2lean.py (rsexpr, statement fragment) from %s and %s; do not edit -/" % (PU, LNRS),
+           "import GeoModel.Geom", "import GeoModel.TRANPrelude", "",
+           "namespace Geo.Gen", "open Geo", "set_option linter.unusedVariables false", ""]
+    cache = {}
+    jobs = dist_jobs()
+    for (rel, hdr, name, params, ret, funcs, subst, opts) in jobs:
+        if rel not in cache:
+            cache[rel] = strip_comments(open(os.path.join(repo, rel)).read())
+        try:
+            term = rsexpr.translate_fn(cache[rel], hdr, NUM_PATHS, funcs, subst, opts=opts)
+        except rsexpr.TranslateError as e:
+            die("%s (%s): %s" % (name, rel, e))
+        out.append("/-- `%s` — %s -/" % (name, rel))
+        out.append("def %s %s : %s :=\n%s\n" % (name, params, ret, term))
+    out += ["end Geo.Gen", ""]
+    write(os.path.join(outdir, "DistGen.lean"), "\n".join(out))
+    return len(jobs)
+
 ENDPT = {"p.start": "p1", "p.end": "p2", "q.start": "q1", "q.end": "q2"}
 
 def collinear_table(repo, outdir):
@@ -693,7 +743,8 @@ def main():
     nd = dims_functions(repo, outdir)
     nm = misc_functions(repo, outdir)
     npg = polysm_functions(repo, outdir)
-    print("rs2lean: wrote Masks.lean (%d predicates), Enums.lean (%d op rules), CollinearTable.lean (%d rows), Kernel.lean (%d functions), AffineGen.lean (%d functions), RectGen.lean (%d functions), InterpGen.lean (%d functions), CoordPosGen.lean (%d functions), DimsGen.lean (%d functions), AreaGen.lean (%d functions), PolygonSMGen.lean (%d functions)" % (len(fns), len(pairs), rows, nk, na, nr, ni, nc, nd, nm, npg))
+    ndi = dist_functions(repo, outdir)
+    print("rs2lean: wrote Masks.lean (%d predicates), Enums.lean (%d op rules), CollinearTable.lean (%d rows), Kernel.lean (%d functions), AffineGen.lean (%d functions), RectGen.lean (%d functions), InterpGen.lean (%d functions), CoordPosGen.lean (%d functions), DimsGen.lean (%d functions), AreaGen.lean (%d functions), PolygonSMGen.lean (%d functions), DistGen.lean (%d functions)" % (len(fns), len(pairs), rows, nk, na, nr, ni, nc, nd, nm, npg, ndi))
 
 if __name__ == "__main__":
     main()
